@@ -444,9 +444,43 @@ def gen_history(tier):
                             yield dict(base, order="before", polluter=pi, steps=[X, P])
 
 
+def load_multifile(sysd, split):
+    """The same description written as several files (json_and_dict_doc.rst: "network" / "space" of a system may be a "JSON
+    path"; a network / space without "units" inherits the units system of the reaction-diffusion system): system.json +
+    network.json (+ space.json when split == "net+space"), relative paths, loaded with load_rdsystem."""
+    import json
+    import os
+    import shutil
+    import tempfile
+    from strengths.rdsystem import load_rdsystem
+    tmp = tempfile.mkdtemp(dir="/var/tmp", prefix="c04-")
+    try:
+        d = dict(sysd)
+        parts = [("network", "network.json")] + ([("space", "space.json")] if split == "net+space" else [])
+        for key, name in parts:
+            with open(os.path.join(tmp, name), "w", encoding="utf-8") as fh:
+                json.dump(d[key], fh, ensure_ascii=False, indent=1)
+            d[key] = name
+        with open(os.path.join(tmp, "system.json"), "w", encoding="utf-8") as fh:
+            json.dump(d, fh, ensure_ascii=False, indent=1)
+        return load_rdsystem(os.path.join(tmp, "system.json"))
+    finally:
+        shutil.rmtree(tmp, ignore_errors=True)
+
+
 def check_case(case):
     if case.get("hist"):
         return check_history(case)
+    res = _check_case(case)
+    if case.get("files"):      # keys of the multi-file route: C04:<level>-files:<space>:...
+        pre = "C04:%s:" % case["level"]
+        res = [((k.replace(pre, "C04:%s-files:" % case["level"], 1) if k.startswith(pre) else k),
+                "[%s written as system.json + %s] %s" % (case["level"], "network.json" if case["files"] == "net" else "network.json + space.json", w))
+               for k, w in res]
+    return res
+
+
+def _check_case(case):
     out = []
     gtype, level, U = case["gtype"], case["level"], tuple(case["U"])
     try:
@@ -478,7 +512,10 @@ def check_case(case):
             if meta[0][1] != expU[1] or meta[1][2] != expU[2]:
                 out.append(("C04:script:output-units", "trajectory reported in %r / %r, script units system is %r" % (meta[0], meta[1], expU)))
         else:
-            system = rdsystem_from_dict(build_dict(gtype, level, U, ds))
+            if case.get("files"):
+                system = load_multifile(build_dict(gtype, level, U, ds), case["files"])
+            else:
+                system = rdsystem_from_dict(build_dict(gtype, level, U, ds))
             p = params_si(system)
             if [n for n, _ in p] != [n for n, _ in bp]:
                 out.append(("C04:%s:%s:structure" % (level, gtype), "parameter list differs from the base system"))
@@ -509,6 +546,7 @@ def check_case(case):
 
 
 def gen_cases(tier):
+    gen_cases._nfile = 0
     systems = si.systems36() if tier == "quick" else si.ALL_SYSTEMS
     rate_set = set(si.systems36()) if tier == "thorough" else set(si.systems36()[::3])
     levels = {"grid": ["system", "network", "space", "species", "reaction", "explicit", "explicit-mixed", "species-mixed", "script"],
@@ -534,6 +572,20 @@ def gen_cases(tier):
                     c3["default_state"] = True      # no explicit state: density x volume
                     c3["rate"] = False
                     yield c3
+                if level in ("system", "network", "space", "species"):
+                    # the multi-file route: the network (and the space) in files of their own, which at system / space (network)
+                    # level carry no units declaration and inherit the system's
+                    nfile = getattr(gen_cases, "_nfile", 0)
+                    gen_cases._nfile = nfile + 1
+                    c5 = dict(c)
+                    c5["files"] = ("net", "net+space")[nfile % 2]
+                    c5["rate"] = False
+                    yield c5
+                    if level == "system":
+                        c6 = dict(c5)
+                        c6["files"] = ("net+space", "net")[nfile % 2]
+                        c6["default_state"] = True
+                        yield c6
                 if level == "script":
                     for var in ("explicit-times", "explicit-tsample"):
                         c2 = dict(c)
@@ -624,7 +676,7 @@ def run(ctx):
         core.merge(ctx, r)
         done += job[1] - job[0]
     nsys = 36 if ctx.tier == "quick" else 1100
-    ctx.subspace("%d unit systems x {grid: 9 levels, graph: 11 levels, incl. per-environment dictionaries whose entries are written in different units (all explicit strings / bare number + explicit strings)} (+ script variants with explicit time quantities / explicit request list and default t_max): heterogeneous "
+    ctx.subspace("%d unit systems x {grid: 9 levels, graph: 11 levels, incl. per-environment dictionaries whose entries are written in different units (all explicit strings / bare number + explicit strings)} (+ the levels system / network / space / species also written as system.json + network.json [+ space.json] and loaded with load_rdsystem; + script variants with explicit time quantities / explicit request list and default t_max): heterogeneous "
                  "3-species / 4-reaction (orders 0-3) / 2-environment system on a periodic 3-cell grid and a 3-node graph" % nsys,
                  len(_CASES), done, exhaustive=(done == len(_CASES)))
     ctx.rule("one case per (space type, declaration level, unit system); non-trivial = unit system differs from the default; "
